@@ -162,10 +162,12 @@ impl Bus {
     /// On top of the [`Bus::cpu_reset`], the following will be reset:
     ///  - The input register
     ///  - The interrupt timer config
+    ///  - The outputs and settings of the [`Board`]
     pub fn master_reset(&mut self) {
         self.cpu_reset();
         self.input_reg = [0; 4];
         self.int_timer.reset();
+        self.board.master_reset();
     }
 
     /// Fill the ram with zeros.
